@@ -202,6 +202,16 @@ def run_batch(bindir, items, timeout=300, solo_timeout=60, leak=False, env_extra
         script = ''.join(wrap_case(cid, body, leak) for cid, body in pending)
         events, st = run_driver(bindir, script, timeout=timeout, env_extra=env_extra, cwd=cwd, binary=binary, wrapper=wrapper)
         cases, inflight, partial, done = split_cases(events)
+        # LeakSanitizer's recoverable check re-reports old leaks: only the first case it fires in is the culprit,
+        # later cases of this process are re-run in a fresh one
+        order = [cid for cid, _ in pending]
+        leaky = next((cid for cid in order if cid in cases and cases[cid][-1].get('lsan', 0) not in (0, -1)), None) if leak else None
+        if leaky is not None:
+            cut = order.index(leaky)
+            for cid in order[:cut + 1]:
+                results[cid] = (cases[cid], None)
+            pending = pending[cut + 1:]
+            continue
         for cid, evs in cases.items():
             results[cid] = (evs, None)
         if done and not st['timeout']:
